@@ -360,8 +360,10 @@ func run(c *mcx.Ctx) {
 							do(Case{Steps: steps, Chosen: chosen, Threshold: k, Extra: extra, Name: "x", DSSE: dsse, Strict: true, OthersMulti: true, LinkNames: "rotated"})
 							do(Case{Steps: steps, Chosen: chosen, Threshold: k, Extra: extra, Name: "x", DSSE: dsse, Strict: true, LinkNames: "rotated"})
 						}
-						do(Case{Steps: steps, Chosen: chosen, Threshold: k, Extra: extra, Name: "x", DSSE: dsse, Strict: true, Paths: "dot-slash"})
-						do(Case{Steps: steps, Chosen: chosen, Threshold: k, Extra: extra, Name: "x", DSSE: dsse, Strict: false, Paths: "dot-slash", OthersMulti: steps > 1})
+						if k+extra <= 3 {
+							do(Case{Steps: steps, Chosen: chosen, Threshold: k, Extra: extra, Name: "x", DSSE: dsse, Strict: true, Paths: "dot-slash"})
+							do(Case{Steps: steps, Chosen: chosen, Threshold: k, Extra: extra, Name: "x", DSSE: dsse, Strict: false, Paths: "dot-slash", OthersMulti: steps > 1})
+						}
 						if extra == 0 && k <= 2 {
 							for _, in := range []string{"first", "last"} {
 								do(Case{Steps: steps, Chosen: chosen, Threshold: k, Extra: extra, Name: "x", DSSE: dsse, Strict: true, InspNamed: in})
